@@ -1,3 +1,2 @@
-import Driver.Loop
-/-! Driver for group `pyvalue`: replace `[]` by this group's handlers. -/
-def main : IO Unit := TF.Driver.run []
+import Driver.Pyvalue
+def main : IO Unit := TF.Driver.run [TF.Driver.handlePyvalue]
